@@ -375,6 +375,19 @@ def strategy_10k(tier):
     return st.one_of(case('pdb'), case('pdb'), case('pdb'), case('gro'))
 
 
+def _fit_pdb_serials(case):
+    """The property speaks of systems up to the format limit: a PDB file numbers atoms and TER records with five digits, so
+    the big molecule is shortened until the last serial is at most 99999 (GRO files have no such limit)."""
+    if case['fmt'] != 'pdb':
+        return case
+    mols = [dict(m) for m in case['mols']]
+    big = mols[0]
+    others = sum(len(m['atoms']) * m.get('tiles', 1) for m in mols[1:])
+    room = 99999 - len(mols) - others
+    big['tiles'] = max(1, min(big['tiles'], room // len(big['atoms'])))
+    return dict(case, mols=mols)
+
+
 def strategy_100k(tier):
     def case(fmt):
         big = _mol_strategy(fmt, 10, big=(99980, 100010))
@@ -383,7 +396,7 @@ def strategy_100k(tier):
             'fmt': st.just(fmt),
             'mols': st.tuples(big, st.lists(small, max_size=1)).map(lambda t: [t[0]] + t[1]),
             'velocities': st.just(False), 'precision': st.just(7),
-        })
+        }).map(_fit_pdb_serials)
     return st.one_of(case('pdb'), case('gro'))
 
 
